@@ -2,6 +2,8 @@ package main
 
 import (
 	"encoding/json"
+	"go/token"
+	"go/types"
 	"flag"
 	"fmt"
 	"os"
@@ -270,6 +272,15 @@ func runCheck(prop string, o checkOpts) *checkResult {
 		}
 	}
 	res.wall = time.Since(t0).Seconds()
+	if os.Getenv("KVC_TIMES") != "" {
+		for _, r := range results {
+			var ms int64
+			for _, ob := range r.Obls {
+				ms += ob.Millis
+			}
+			fmt.Printf("  time %6.1fs solver, %4d obligations, %3d paths  %s\n", float64(ms)/1000, len(r.Obls), r.Paths, shortFn(r.Fn.String()))
+		}
+	}
 	if !o.quiet {
 		fmt.Printf("kvc check %s [%s]: %d functions, %d obligations (%d instances, %d by simplifier), %d discharged, %d known findings, %d violations, %.1fs wall, %.1fs solver\n",
 			prop, o.tier, len(fns), res.nObl, res.nInstances, res.nTrivial, res.nDischarged, res.known, res.violations, res.wall, float64(solverSeconds)/1000)
@@ -423,4 +434,121 @@ func writeEvidence(prop string, o checkOpts, res *checkResult) {
 
 func cmdSelftest(args []string) int { return 2 }
 
-func (P *Program) analyseInits() error { return nil }
+// analyseInits executes each package initialiser symbolically and records package-level
+// variables of scalar type that end up with a constant value and are never written (or
+// have their address taken) anywhere else (DESIGN §2.3.8).
+func (P *Program) analyseInits() error {
+	P.globalInit = map[*ssa.Global][]uint64{}
+	for _, sp := range P.ssaPkgs {
+		initFn := sp.Func("init")
+		if initFn == nil || len(initFn.Blocks) == 0 {
+			continue
+		}
+		func() {
+			e := newExec(P)
+			e.rootFn = initFn
+			e.initMode = true
+			e.mute = 1
+			defer func() {
+				if r := recover(); r != nil {
+					if u, ok := r.(unsupported); ok {
+						if os.Getenv("KVC_DEBUG") != "" {
+							fmt.Fprintf(os.Stderr, "init analysis of %s: %s\n", sp.Pkg.Path(), u.msg)
+						}
+						return
+					}
+					if _, ok := r.(cerr); ok {
+						return
+					}
+					panic(r)
+				}
+			}()
+			st := e.initState()
+			e.stack = []*ssa.Function{initFn}
+			outs := e.execFn(initFn, nil, nil, st, 0, nil)
+			if os.Getenv("KVC_DEBUG") != "" {
+				fmt.Fprintf(os.Stderr, "init analysis of %s: %d outcomes\n", sp.Pkg.Path(), len(outs))
+			}
+			if len(outs) != 1 {
+				return
+			}
+			for _, m := range sp.Members {
+				g, ok := m.(*ssa.Global)
+				if !ok {
+					continue
+				}
+				T := g.Type().(*types.Pointer).Elem()
+				if !isInteger(T) && !isBoolean(T) {
+					continue
+				}
+				if !globalIsConstant(sp, g, initFn) {
+					continue
+				}
+				a := e.globalAddr(g)
+				v := e.loadFrom(outs[0].st.h, a, T)
+				var vals []uint64
+				okc := true
+				for _, t := range v {
+					if !t.IsConst() {
+						okc = false
+						break
+					}
+					vals = append(vals, t.C)
+				}
+				if os.Getenv("KVC_DEBUG") != "" {
+					fmt.Fprintf(os.Stderr, "  global %s: const=%v %v\n", g.Name(), okc, e.c.Show(v[0]))
+				}
+				if okc {
+					P.globalInit[g] = vals
+				}
+			}
+		}()
+	}
+	return nil
+}
+
+// globalIsConstant: outside init the global is only ever loaded.
+func globalIsConstant(sp *ssa.Package, g *ssa.Global, initFn *ssa.Function) bool {
+	ok := true
+	check := func(fn *ssa.Function) {
+		if fn == initFn {
+			return
+		}
+		for _, b := range fn.Blocks {
+			for _, in := range b.Instrs {
+				for _, op := range in.Operands(nil) {
+					if *op != ssa.Value(g) {
+						continue
+					}
+					if u, isLoad := in.(*ssa.UnOp); isLoad && u.Op == token.MUL {
+						continue
+					}
+					ok = false
+				}
+			}
+		}
+	}
+	var visit func(fn *ssa.Function)
+	visit = func(fn *ssa.Function) {
+		check(fn)
+		for _, an := range fn.AnonFuncs {
+			visit(an)
+		}
+	}
+	for _, m := range sp.Members {
+		switch x := m.(type) {
+		case *ssa.Function:
+			visit(x)
+		case *ssa.Type:
+			for _, T := range []types.Type{x.Type(), types.NewPointer(x.Type())} {
+				ms := sp.Prog.MethodSets.MethodSet(T)
+				for i := 0; i < ms.Len(); i++ {
+					if fn := sp.Prog.MethodValue(ms.At(i)); fn != nil && fn.Pkg == sp {
+						visit(fn)
+					}
+				}
+			}
+		}
+	}
+	return ok
+}
